@@ -303,8 +303,38 @@ def prove_add(src_root, ex: Explorer):
     ex.run(path, 'add')
 
 
+def prove_manager_cache_calls(src_root, ex: Explorer):
+    """(a) TransferManager.write_cache() hands the CURRENT list to the cache, whatever its length - with an empty list too: that is how the
+    removal of the last transfer reaches the disk (C17.write.exact removes the stale entries).  (b) TransferManager.start() keeps the
+    management queue it finds: load_data() runs before start() and every loaded transfer posts its wake-up (C17.add.wired) into that
+    queue; replacing the queue on start drops them and the loaded transfers are never scheduled."""
+    def write(ctx: Ctx):
+        it = mk(src_root, ctx)
+        n = ctx.choose(3, 'n')
+        ts = [Opaque('t0'), Opaque('t1')][:n]
+        written = []
+        cache = Stub('cache', write=Recorder('write', fn=lambda it2, a, k: written.append(a[0])))
+        mgr = new(it, MGR, 'TransferManager', _transfers=ts, cache=cache)
+        it.call(it.getattr(mgr, 'write_cache'), [], {})
+        ctx.prove(f'C17.write_cache.writes-current-list[n={n}]', len(written) == 1 and list(written[0]) == ts,
+                  f'{len(written)} cache writes for a list of {n} transfers: what was removed since the last write stays in the cache')
+    ex.run(write, 'manager-write-cache')
+
+    def start(ctx: Ctx):
+        from contracts.C16 import BT
+        it = mk(src_root, ctx)
+        it.natives['asyncio.Queue'] = Native('Queue', lambda it2, a, k: Opaque('a new queue'))
+        q = Opaque('queue with the wake-ups of the loaded transfers')
+        mt, pt = BT('management'), BT('progress')
+        mgr = new(it, MGR, 'TransferManager', _transfers=[], _management_queue=q, _management_task=mt, _progress_reporting_task=pt)
+        run(it, it.getattr(mgr, 'start'))
+        ctx.prove('C17.start.keeps-pending-wakeups', mgr.attrs['_management_queue'] is q and mt.started == 1,
+                  'start() replaced the management queue: the cycle requests posted while the cache was loaded are lost')
+    ex.run(start, 'manager-start')
+
+
 def items(src_root, tier):
-    return [('pickle', s) for s in C03.STATE_CLASSES] + [('key', None), ('write', None)] + [('read_cache', s) for s in C03.STATE_CLASSES] + [('add', None)]
+    return [('manager', None)] + [('pickle', s) for s in C03.STATE_CLASSES] + [('key', None), ('write', None)] + [('read_cache', s) for s in C03.STATE_CLASSES] + [('add', None)]
 
 
 def run_item(src_root, item, tier):
@@ -322,6 +352,8 @@ def run_item(src_root, item, tier):
             prove_read_cache(src_root, arg, ex)
         elif kind == 'add':
             prove_add(src_root, ex)
+        elif kind == 'manager':
+            prove_manager_cache_calls(src_root, ex)
     except Unsupported as e:
         res.errors.append(f'{kind}:{arg}: unsupported: {e}')
     collect(res, ex)
